@@ -172,12 +172,12 @@ func (r *Report) finish(evidencePath string, explanation string) int {
 			nK++
 			reported[o.Key] = true
 			p := r.writeReplay(replayDir, o)
-			fmt.Printf("KNOWN-FINDING: property=%s %s — %s [%s] replay=%s\n", r.Property, o.Key, o.Detail, o.Pos, p)
+			fmt.Printf("KNOWN-FINDING: property=%s %s — %s [%s] replay=%s\n", r.Property, printable(o.Key), printable(o.Detail), o.Pos, p)
 		case Violated:
 			nV++
 			p := r.writeReplay(replayDir, o)
 			fmt.Printf("VIOLATION property=%s replay=%s\n", r.Property, p)
-			fmt.Printf("  rule=%s construct=%s at %s\n  %s\n", o.Rule, o.Key, o.Pos, o.Detail)
+			fmt.Printf("  rule=%s construct=%s at %s\n  %s\n", o.Rule, printable(o.Key), o.Pos, printable(o.Detail))
 			if o.Witness != "" {
 				fmt.Printf("  witness: %s\n", o.Witness)
 			}
@@ -290,4 +290,28 @@ func (r *Report) writeReplay(dir string, o Ob) string {
 	}, "", " ")
 	os.WriteFile(p, append(b, '\n'), 0o644)
 	return p
+}
+
+// printable: control characters (a NUL inside a quoted Go constant of the analysed code, say) are written as
+// escapes, so that the report stays a text file for grep and terminals.
+func printable(s string) string {
+	clean := true
+	for i := 0; i < len(s); i++ {
+		if s[i] < 0x20 && s[i] != '\t' || s[i] == 0x7f {
+			clean = false
+			break
+		}
+	}
+	if clean {
+		return s
+	}
+	var b strings.Builder
+	for _, r := range s {
+		if r < 0x20 && r != '\t' || r == 0x7f {
+			fmt.Fprintf(&b, "\\x%02x", r)
+		} else {
+			b.WriteRune(r)
+		}
+	}
+	return b.String()
 }
